@@ -73,11 +73,12 @@ def run(c):
     text = dict(RoundTrip="decode(encode(n)) = n, both byte orders", OrderPreserved="n < m <=> BE(n) <_bytes BE(m)", Injective="different values differ in a byte",
                 LimbWise="bytes of the 16-bit limbs are the bytes of the value", LimbOrder="limb order = value order", All24="round trip, order, injectivity, limb-wise form",
                 RoundTrip8="64-bit round trip by 32-bit halves", Order8="64-bit value order = (epoch, lamport) order = byte order of the 8 bytes",
-                All8="64-bit round trip and order by 32-bit halves")
+                All8="64-bit round trip and order by 32-bit halves, every 64-bit value is Key(hi, lo), the 8 bytes of Key(e, l) are the bytes of e then of l")
     obls = [("%d-byte values: %s" % (w, text[inv]), "Init", inv, True, ["--cinit=CInit%d" % w]) for w, inv in c.pick(combined, each)]
-    obls += [("every 64-bit value is Key(hi, lo) of two 32-bit halves", "Init", "Halves", True, ["--cinit=CInit8"]),
-             ("the 8 bytes of Key(e, l) are the 4 bytes of e followed by the 4 bytes of l (event id prefix)", "Init", "SplitDigits", True, ["--cinit=CInit8"]),
-             ("non-vacuity: little-endian bytes do NOT order like the values", "Init", "LEOrderPreserved", False, ["--cinit=CInit4"])]
+    if not c.quick:     # (quick: both are conjuncts of All8)
+        obls += [("every 64-bit value is Key(hi, lo) of two 32-bit halves", "Init", "Halves", True, ["--cinit=CInit8"]),
+                 ("the 8 bytes of Key(e, l) are the 4 bytes of e followed by the 4 bytes of l (event id prefix)", "Init", "SplitDigits", True, ["--cinit=CInit8"])]
+    obls += [("non-vacuity: little-endian bytes do NOT order like the values", "Init", "LEOrderPreserved", False, ["--cinit=CInit4"])]
     obl = fnlib.Obligations(c, "fn", "CodecApa", obls, par=c.pick(2, 3), timeout=1500)
     inp = c.path("codec_jobs.ndjson")
     js = jobs(c)
